@@ -179,11 +179,23 @@ pub(crate) fn apply_rules_on_link(
         product_paths.difference(&material_paths).cloned().collect();
     let deleted: BTreeSet<_> =
         material_paths.difference(&product_paths).cloned().collect();
+    // look the digests up by canonicalized path, like the sets above
+    let canonicalized =
+        |artifacts: &BTreeMap<VirtualTargetPath, TargetDescription>| {
+            artifacts
+                .iter()
+                .filter_map(|(path, value)| {
+                    canonicalize_path(path).map(|path| (path, value.clone()))
+                })
+                .collect::<BTreeMap<VirtualTargetPath, TargetDescription>>()
+        };
+    let canonical_materials = canonicalized(&src_link.materials);
+    let canonical_products = canonicalized(&src_link.products);
     let modified: BTreeSet<_> = material_paths
         .intersection(&product_paths)
         .cloned()
         .filter_map(|name| {
-            if src_link.materials[&name] != src_link.products[&name] {
+            if canonical_materials.get(&name) != canonical_products.get(&name) {
                 Some(name)
             } else {
                 None
